@@ -695,3 +695,135 @@ class PairReal:
 
     def close(self):
         self.env.close()
+
+
+# ---------------------------------------------------------------------------------------------
+# Closing handshake (C16, WsClose)
+
+PING_INTERVAL, PING_TIMEOUT = 7, 3
+
+
+class CloseReal:
+    """A real endpoint (WebSocketHandler on a server / WebSocketClientConnection) behind WsClose's
+    actions; the harness is the peer and owns the virtual clock."""
+
+    def __init__(self, cfg, chunk_mode=0, seed=0):
+        import random
+        import struct
+        self.struct = struct
+        self.cfg = cfg
+        self.role = cfg["role"]
+        self.rng = random.Random(seed)
+        self.chunk_mode = chunk_mode
+        self.env = Env()
+        self.gates = []
+        self.frames = []
+        self.err = "none"
+        self.invalid_reason_sent = False
+        ping = cfg["ping"]
+        if self.role == "server":
+            settings = {}
+            if ping:
+                settings = {"websocket_ping_interval": PING_INTERVAL, "websocket_ping_timeout": PING_TIMEOUT}
+            self.side = ServerSide(self.env, settings=settings, gate=self._gate if cfg["async"] else None)
+            self.side.handshake()
+        else:
+            kw = {}
+            if ping:
+                kw = {"ping_interval": PING_INTERVAL, "ping_timeout": PING_TIMEOUT}
+            self.side = ClientSide(self.env, mode="cb", **kw)
+            self.side.handshake()
+
+    def _gate(self, handler, message):
+        import asyncio
+        f = asyncio.get_event_loop().create_future()
+        self.gates.append(f)
+        return f
+
+    def _send(self, op, payload):
+        data = encode_header(1, 0, op, self.role == "server", len(payload)) + \
+            (xor_mask(MASK_KEY, payload) if self.role == "server" else payload)
+        for c in chunked(data, self.chunk_mode, self.rng):
+            self.side.feed(c)
+
+    def step(self, act, args):
+        self.err = "none"
+        try:
+            if act == "close":
+                code, has_reason = args
+                c = code or None
+                r = "local-bye" if has_reason else None
+                if self.role == "server":
+                    self.side.handler.close(c, r)
+                else:
+                    self.side.conn.close(c, r)
+            elif act == "write":
+                if self.role == "server":
+                    self.side.handler.write_message("x")
+                else:
+                    self.side.conn.write_message("x")
+            elif act == "msg":
+                self._send(1, b"m")
+            elif act == "pong":
+                self._send(10, b"")
+            elif act == "peerclose":
+                code, rk = args
+                pl = b"" if code == 0 else self.struct.pack(">H", code)
+                if rk == "onebyte":
+                    pl = b"\x03"
+                elif rk == "valid":
+                    pl += b"bye"
+                elif rk == "invalid":
+                    pl += b"\xff\xfe"
+                    self.invalid_reason_sent = True
+                self._send(8, pl)
+            elif act == "eof":
+                self.side.peer_eof()
+            elif act == "resume":
+                g = self.gates.pop(0)
+                g.set_result(None)
+            elif act == "advance":
+                self.env.advance(args[0])
+            else:
+                raise ValueError(act)
+        except Exception as e:      # exceptions of the code under test are observations
+            self.err = type(e).__name__
+        self.env.settle()
+        if not self.side.closed():
+            self.side.stream.pump()
+        return self.proj()
+
+    def proj(self):
+        self.frames.extend(self.side.take_frames())
+        closes = [i for i, f in enumerate(self.frames) if opcode(f[0]) == 8]
+        sent_code = 0
+        if closes:
+            pl = self.frames[closes[0]][2]
+            sent_code = self.struct.unpack(">H", pl[:2])[0] if len(pl) >= 2 else 0
+        data_after = bool(closes) and any(opcode(f[0]) in (0, 1, 2) for f in self.frames[closes[0] + 1:])
+        ev = [e for e in self.side.events if e[0] == "close"]
+        n_code, n_reason = 0, "none"
+        if ev:
+            n_code = ev[0][1] or 0
+            r = ev[0][2]
+            if self.invalid_reason_sent:
+                n_reason = "any"
+            else:
+                n_reason = "none" if r is None else ("valid" if r == "bye" else "other")
+        out = {"closeFrames": len(closes), "sentCode": sent_code, "dataAfterClose": data_after,
+               "pings": sum(1 for f in self.frames if opcode(f[0]) == 9),
+               "tcpOpen": not self.side.closed(), "notified": len(ev), "nCode": n_code, "nReason": n_reason,
+               "delivered": sum(1 for e in self.side.events if e[0] == "msg"), "err": self.err}
+        if self.invalid_reason_sent and not self.gates:
+            # malformed close frame processed: echo / reported code are left open by the specification
+            out["closeFrames"] = out["sentCode"] = out["nCode"] = -1
+            out["nReason"] = "any"
+        return out
+
+    def finish(self):
+        """After the path: let every timer expire; returns the final projection."""
+        self.env.loop.run_until_quiescent(horizon=self.env.now + 100)
+        return self.proj()
+
+    def close(self):
+        self.env.close()
